@@ -244,7 +244,7 @@ func TestC19(t *testing.T) {
 						if gg.Var%2 == 1 {
 							content = testutil.GenerateDirectory(t, ls, rnd, 3000, gg.Var%4 == 3)
 						}
-						wp := []string{"want0", "want2/want1/want0", "/a/b/", "x/y/z/w"}[(gg.Var+gg.Size)%4]
+						wp := []string{"want0", "want2/want1/want0", "/a/b/", "x/y/z/w", "/outer//inner", "top//mid//leaf/", "//a"}[(gg.Var+gg.Size)%7]
 						de = testutil.WrapContent(t, rnd, ls, content, wp, excl)
 					})
 					if !okRun {
@@ -258,6 +258,35 @@ func TestC19(t *testing.T) {
 			if err != nil {
 				c.Violation("C19|"+gg.Name+"|generator-error", "%s(size %d): %v", gg.Name, gg.Size, err)
 				return
+			}
+			// the same generation once more on a store that rejects the k-th block: the generator must
+			// either report the failure or return a tree that is completely stored
+			if strings.HasPrefix(gg.Name, "UnixFS") && gg.Name != "UnixFSDirectory-custom" && st.Commits > 0 {
+				for _, k := range []int{1, 1 + st.Commits/2, st.Commits} {
+					fst := store.New()
+					fst.FailCommitAt = k
+					fls := fst.LinkSystem(false)
+					frnd := rand.New(rand.NewSource(int64(c.Seed)))
+					var fde testutil.DirEntry
+					var ferr error
+					c.Guard(gg.Name+" with failing commit", func() {
+						switch gg.Name {
+						case "UnixFSFile":
+							fde, ferr = testutil.UnixFSFile(*fls, gg.Size, testutil.WithRandReader(frnd))
+						case "UnixFSDirectory-sharded":
+							fde, ferr = testutil.UnixFSDirectory(*fls, gg.Size, testutil.WithRandReader(frnd), testutil.WithShardBitwidth(4))
+						default:
+							fde, ferr = testutil.UnixFSDirectory(*fls, gg.Size, testutil.WithRandReader(frnd))
+						}
+					})
+					c.Count("generations_with_faults", 1)
+					if ferr == nil && fst.InjectedHits > 0 {
+						fs := &c19Stats{}
+						before := c.Run() // violations below are keyed so that they are distinguishable
+						_ = before
+						compareEntry(c, gg.Name+"|after-rejected-write", walkerFor(fst), fde, false, 0, fs)
+					}
+				}
 			}
 			c.Count("generations", 1)
 			stt := &c19Stats{}
